@@ -115,7 +115,7 @@ def eval_one(sid, props, tier, workers):
             res["error"] = "patch does not apply: " + r.stderr[-200:]
             return res
         env = dict(os.environ, PYFVTOOL_SRC=os.path.join(wt, "src"),
-                   VERIF_REPLAY_DIR="/tmp/sd_replays")
+                   VERIF_REPLAY_DIR="/tmp/sd_replays/" + sid)
         for p in props or [meta["property"]]:
             t0 = time.time()
             r = sh([PY, os.path.join(VERIF, "check.py"), "--property", p, "--tier", tier,
